@@ -39,6 +39,15 @@ A python `icontract` post-condition around GetDescriptorHandlerBlock.generate_ro
 the documented layout (type table -> index table -> data; big-endian (count|length, address) words) and requires
 every (type, index) to round-trip and every absent type to have count 0.
 
+Coverage-audit additions: stand-alone block handler in clock domain default / usb / sync / aux (sync then runs at an
+unrelated rate as a bystander); mux shapes [Block], [Block, Block] (mux + handlers in a non-default domain), [Block,
+Distributed], [Distributed, Block], [Block, Distributed, Distributed]; in-device `avoid_blockram=None` with and without
+LUNA_AVOID_BLOCKRAM in the environment (the handler classes that were built are checked through the instance
+registry); zero-length descriptors (expected: ZLP); descriptors of 1024..1900 bytes (offsets up to the 11-bit limit of
+start_position); stand-alone probes a legal host never sends - start_position beyond the descriptor (up to 2047) and
+length == start_position - on ROM descriptors, judged only for "no data byte is streamed" (ZLP, stall, silence are all
+accepted).
+
 Deviations from DESIGN.md section 7: the workload is wider (hostile host histories, mux with runtime descriptors,
 unsolicited-packet accounting); in stand-alone mode a ZLP indication that is held until tx.ready is a violation
 (the packet generator never raises ready for a ZLP, the in-device sessions show the resulting babble).
@@ -70,7 +79,7 @@ REQUIRED_BINS = [
     "missing_then_good", "sparse_indices", "default_collection", "runtime_descriptor_requested",
     "sa_start_mid_descriptor", "sa_zlp_position", "sa_zlp_with_ready_low", "sa_stall_on_last_byte", "tx_ready_stalls",
     "sa_start_beyond_descriptor", "sa_start_near_11bit_limit", "sa_length_equals_start", "zero_length_descriptor_requested",
-    "sa_domain_usb", "sa_domain_sync", "sa_domain_aux", "sa_mux_shape_B", "sa_mux_shape_BD", "sa_mux_shape_DB", "sa_mux_shape_BDD",
+    "sa_domain_usb", "sa_domain_sync", "sa_domain_aux", "sa_mux_shape_B", "sa_mux_shape_BB", "sa_mux_shape_BD", "sa_mux_shape_DB", "sa_mux_shape_BDD",
     "avoid_blockram_none_env_set", "avoid_blockram_none_env_unset", "long_descriptor",
 ]
 REQUIRED_EVENTS = ["transfers_judged", "data_packets_compared", "bytes_compared", "stalls_seen", "zlps_seen",
@@ -160,7 +169,7 @@ class Setup:
     def __init__(self, rng, standalone):
         self.standalone = standalone
         self.mps = rng.choice([8, 16, 32, 64])
-        self.variant = rng.choice(["block", "distributed", "mux"])
+        self.variant = rng.choice(["block", "distributed", "mux"] + (["mux", "mux"] if standalone else []))
         self.default = (not standalone) and self.variant != "mux" and rng.random() < 0.3
         self.runtime = set()
         if self.default:
@@ -794,7 +803,9 @@ def run_standalone(rng, tier, res, setup):
             else:
                 fixed.add_descriptor(raw, index=i, descriptor_type=t)
         rkeys = sorted(setup.runtime)
-        shape = rng.choice(["BD", "DB", "BDD", "BDD", "B", "B"])
+        shape = rng.choice(["BD", "BD", "DB", "DB", "BDD", "BDD", "B", "BB", "BB"])
+        if shape == "BB" and len({t for t, _ in setup.table}) < 2:
+            shape = "B"
         if shape == "BDD" and len(rkeys) < 2:
             # a second runtime descriptor so that two distributed handlers can be built
             t0, i0 = rkeys[0]
@@ -806,7 +817,22 @@ def run_standalone(rng, tier, res, setup):
                 setup.runtime.add(extra)
                 rkeys = sorted(setup.runtime)
         setup.owners = {}
-        if shape == "B":
+        if shape == "BB":
+            # two ROM handlers (split by descriptor type, so they reach their stall verdict in different cycles) behind a mux,
+            # all of them in the same, possibly non-default, domain: the mux's stall latches are in play
+            setup.runtime = set()
+            dom = rng.choice(["usb", "aux", "aux", "sync"])
+            types = sorted({t for t, _ in setup.table})
+            lo = set(types[:max(1, len(types) // 2)])
+            ca = DeviceDescriptorCollection(automatic_language_descriptor=False)
+            cb = DeviceDescriptorCollection(automatic_language_descriptor=False)
+            for (t, i), raw in sorted(setup.table.items()):
+                (ca if t in lo else cb).add_descriptor(raw, index=i, descriptor_type=t)
+                setup.owners[(t, i)] = 0 if t in lo else 1
+            dut = GetDescriptorHandlerMux(domain=dom)
+            dut.add_descriptor_handler(GetDescriptorHandlerBlock(ca, max_packet_length=mps, domain=dom))
+            dut.add_descriptor_handler(GetDescriptorHandlerBlock(cb, max_packet_length=mps, domain=dom))
+        elif shape == "B":
             # a mux with a single handler: everything in the ROM; the mux (and its handler) may live in another domain
             setup.runtime = set()
             dom = rng.choice(["usb", "aux", "sync"])
@@ -860,6 +886,11 @@ def run_standalone(rng, tier, res, setup):
         if not tiny_rom(setup):
             raise
         res.violation(TINY_ROM_MECH, "%s :: IndexError: %s" % (setup.describe(), e))
+        return
+    except NameError as e:
+        if "is not present in simulation" not in str(e):
+            raise
+        res.violation("handler_not_in_requested_clock_domain", "%s :: %s" % (res.desc["config"], e))
         return
     tx = dut.tx
     b.watch(dut.value, dut.length, dut.start_position, dut.start, dut.stall, tx.valid, tx.ready, tx.first, tx.last, tx.payload)
